@@ -456,6 +456,10 @@ def instances(tier, seed):
         (keys_of(2, [0, 3]), keys_of(2, [0, 1])),
         (keys_of(2, [0, 1, 2]), keys_of(2, [3])),
         (keys_of(3, [0, 7]), keys_of(3, [0, 5, 7])),
+        # the same support entered in a different key order (a dict keeps insertion order)
+        (keys_of(2, [0, 1, 3]), [keys_of(2)[i] for i in (3, 0, 1)]),
+        (keys_of(2), [keys_of(2)[i] for i in (2, 3, 1, 0)]),
+        ([keys_of(1)[1], keys_of(1)[0]], keys_of(1)),
     ]
     for kt, km in pairs:
         items.append(("mmd", {"tkeys": [list(k) for k in kt], "mkeys": [list(k) for k in km], "nsigma": 1, "label": f"mmd {kt} vs {km}"}))
